@@ -249,6 +249,16 @@ def run(ctx):
         for lits in (['3.9.0rc1', '3.10.2'], ['3.8.5', '3.9.0b2'], ['3.11.4.post1'], ['1!3.8', '3.8.dev1']):
             for neg in (False, True):
                 battery.append(('verin', key, lits, neg))
+    # if-then-else shapes over one boolean variable (an operand node meets itself with the other complement bit below and / or)
+    for x, y, z in ((('extra', False, 'a'), ('extra', False, 'b'), ('extra', False, 'c')),
+                    (('contains', 'sys_platform', 'nux', False), ('extra', False, 'b'), ('extra', False, 'c')),
+                    (('in', 'os_name', 'posix nt', False), ('contains', 'sys_platform', 'x', False), ('in', 'sys_platform', 'linux darwin', False)),
+                    (('extra', False, 'a'), ('str', 'os_name', '==', 'posix'), ('ver', 'python_full_version', '>=', '3.8'))):
+        nx = flip_leaf(x)
+        battery.append(('or', ('and', x, y), ('and', nx, z)))
+        battery.append(('and', ('or', x, y), ('or', nx, z)))
+        battery.append(('or', ('and', x, flip_leaf(y)), ('and', nx, y)))
+        battery.append(('and', ('ver', 'python_version', '>=', '3.8'), ('or', ('and', x, y), ('and', nx, z))))
     for bi in range(len(battery) + n_trees):
         a = battery[bi] if bi < len(battery) else gen_ast(ctx.rng, ctx.rng.choice([0, 1, 1, 2, 2, 3]))
         texts = []
